@@ -4,6 +4,7 @@ CONSTANTS Pitches = {0, 1, 24}
           NP = 2
           W = {1, 2}
           Modes = {"same", "late", "early"}
+          Origins = {0, 10000}
 INVARIANT Identities
 INVARIANT NoTies
 INVARIANT Export
